@@ -39,7 +39,12 @@ Flat(ss) == IF ss = <<>> THEN <<>> ELSE Head(ss) \o Flat(Tail(ss))
 StrEach(ts) == [i \in DOMAIN ts |-> Str(ts[i])]
 Range(s) == {s[i] : i \in DOMAIN s}
 
-HasPh(text) == \E i \in DOMAIN text : text[i] \in PhUniverse            \* '"<" in text and ">" in text'
+HasPh(text) == \E i \in DOMAIN text : text[i] \in PhUniverse            \* a placeholder token occurs
+\* Literal text may contain angle brackets: always as the one-character tokens "<" and ">" ("x > 0 and <c> < 5" =
+\* <<"x ", ">", " 0 and ", Ph("c"), " ", "<", " 5">>; the cell List<str> = <<"List", "<", "str", ">">>).
+\* The code's test '"<" in text and ">" in text' (render_template, is_parametrized_tag):
+HasAngles(text) == /\ \E i \in DOMAIN text : text[i] \in PhUniverse \cup {"<"}
+                   /\ \E i \in DOMAIN text : text[i] \in PhUniverse \cup {">"}
 HasColPh(text, cols) == \E i \in DOMAIN text : \E k \in DOMAIN cols : text[i] = Ph(cols[k])
 
 StartsWith(s, p) == Len(s) >= Len(p) /\ (Len(p) = 0 \/ SubSeq(s, 1, Len(p)) = p)
@@ -57,12 +62,12 @@ RECURSIVE SeqRepl(_,_,_,_)
 SeqRepl(text, cols, cells, k) ==
    IF k > Len(cols) THEN text ELSE SeqRepl(ReplaceTok(text, Ph(cols[k]), cells[k]), cols, cells, k + 1)
 \* ScenarioOutlineBuilder.render_template(text, row)
-RenderTemplate(text, cols, cells) == IF ~HasPh(text) THEN text ELSE SeqRepl(text, cols, cells, 1)
+RenderTemplate(text, cols, cells) == IF ~HasAngles(text) THEN text ELSE SeqRepl(text, cols, cells, 1)
 
 \* Tag.make_name: alnum and "._-=:,;()" kept, white space -> "_", everything else dropped.
 \* Token level: the tokens of these two sets are the only ones of the bounded family that are not kept.
 SpaceToks == {" "}
-DropToks  == {"/", "+", "#", "@", "!", "%"}
+DropToks  == {"/", "+", "#", "@", "!", "%", "<", ">"}
 TagSafe(text) == \A i \in DOMAIN text : text[i] \notin (SpaceToks \cup DropToks)
 MakeName(text) == Flat([i \in DOMAIN text |-> IF text[i] \in DropToks THEN <<>>
                                              ELSE IF text[i] \in SpaceToks THEN <<"_">> ELSE <<text[i]>>])
@@ -73,7 +78,7 @@ MakeRowTags(tags, cols, cells) ==
    IF tags = <<>> THEN <<>>
    ELSE LET t0 == Head(tags)
             t1 == RenderTemplate(t0, cols, cells)
-        IN (IF ~HasPh(t0) THEN <<t0>> ELSE IF HasPh(t1) THEN <<>> ELSE <<MakeName(t1)>>) \o MakeRowTags(Tail(tags), cols, cells)
+        IN (IF ~HasAngles(t0) THEN <<t0>> ELSE IF HasAngles(t1) THEN <<>> ELSE <<MakeName(t1)>>) \o MakeRowTags(Tail(tags), cols, cells)
 
 \* steps: [name, doc, th, tr]  (doc = <<>>: no doc-string; th = <<>>: no table; tr = rows of cells)
 \* (xcols, xcells) = the row's columns followed by the pseudo-columns: row items first, then params, as in
